@@ -72,7 +72,9 @@ for _cls, (_name, _flds, _par) in _CT.items():
              raises={"RuntimeError": f"not raw_text.strip({CH}).startswith('{_name}')"},
              raises_may={"ValueError": "True", "SyntaxError": "True", "TypeError": "True", "ZeroDivisionError": "True"},
              ensures=list(_ens), labels=_ens,
-             clause_props={"RuntimeError": ["C15", "C11"]},
+             clause_props={"RuntimeError": ["C15", "C11"], "text-starts-with-the-family-name": ["C09", "C11", "C02"],
+                           "parameters-are-the-written-numbers-in-documented-order": ["C09", "C11", "C02"],
+                           "holds-the-scipy-object-of-the-documented-law": ["C09", "C11"], "cover": ["C09", "C11", "C02"]},
              modifies=DIST_FIELDS + _flds)
 
 # ---- name -> family ------------------------------------------------------------------------------------------------------------------------
@@ -85,7 +87,8 @@ contract("distribution.get_distribution", props=["C11", "C09", "C15", "C02"],
          params=dict(distribution_text=STR), returns=Ref("Distribution"),
          raises_may={"RuntimeError": "True", "ValueError": "True", "SyntaxError": "True", "TypeError": "True", "ZeroDivisionError": "True"},
          ensures=list(_GD), labels=_GD,
-         clause_props={"unknown-distribution-name-is-rejected": ["C15", "C11"]},
+         clause_props={"unknown-distribution-name-is-rejected": ["C15", "C11"], "result-holds-the-law-it-denotes": ["C09", "C11"], "cover": ["C09", "C11", "C15"],
+                       **{f"family-{_c[0]}-iff-the-text-starts-with-its-name": ["C09", "C11", "C02"] for _c in _CT.values()}},
          modifies=DIST_FIELDS + sorted({f for _c in _CT.values() for f in _c[1]}))
 
 # ---- one draw: from the declared law, with the declared parameters, using only the supplied generator (C09, C10) -----------------------------
@@ -100,7 +103,8 @@ for _cls in ("Distribution", "FlorySchulz", "SchulzZimm", "LogNormal"):
              requires=["dist_inv(self)"],
              ensures=list(_DRAW), labels=_DRAW,
              raises_may={"RuntimeError": "True"},
-             clause_props={"uses-the-supplied-generator": ["C10", "C09"]},
+             clause_props={"uses-the-supplied-generator": ["C10", "C09", "C11"], "exactly-one-sample-is-the-result": ["C09", "C11", "C07"],
+                           "sample-of-the-declared-law-with-the-declared-parameters": ["C09", "C11"], "cover": ["C09", "C11"], "raises-only": ["C09", "C11"]},
              modifies=["ghost.draws", "ghost.last_draw", "ghost.last_draw_rng", "ghost.last_draw_family", "ghost.last_draw_p1", "ghost.last_draw_p2"],
              allocates=False)
 
